@@ -30,6 +30,31 @@ pub fn linemeasure_case(cx: &mut Ctx, n: u64, case: &Value) {
     cx.count("linemeasure_cases", 1);
     let got_len = Euclidean.length(&ls);
     if (got_len - total).abs() <= tol { cx.ok("length"); } else { cx.bad("C15", "length", case, json!({"got": got_len, "want": total})); }
+    {
+        // the deprecated length trait, Length of the single segments, and InterpolatePoint between two points (distance and ratio forms agree)
+        #[allow(deprecated)]
+        let legacy = { use geo::EuclideanLength; ls.euclidean_length() };
+        let by_lines: f64 = ls.lines().map(|l| Euclidean.length(&l)).sum();
+        if (legacy - total).abs() <= tol && (by_lines - total).abs() <= tol { cx.ok("length_legacy_and_by_segment"); } else { cx.bad("C15", "length_legacy_and_by_segment", case, json!({"legacy": legacy, "by_lines": by_lines, "want": total})); }
+        use geo::InterpolatePoint;
+        let mut ok = true;
+        let mut detail = String::new();
+        for w in cs.windows(2) {
+            let (p, q) = (Point(w[0]), Point(w[1]));
+            let d = ((w[1].x - w[0].x).powi(2) + (w[1].y - w[0].y).powi(2)).sqrt();
+            for k in 0..=4 {
+                let r = k as f64 / 4.0;
+                let a = Euclidean.point_at_ratio_between(p, q, r);
+                let b = Euclidean.point_at_distance_between(p, q, r * d);
+                let want = Coord { x: w[0].x + (w[1].x - w[0].x) * r, y: w[0].y + (w[1].y - w[0].y) * r };
+                if d > 0.0 && !((a.x() - want.x).abs() <= tol && (a.y() - want.y).abs() <= tol && (b.x() - want.x).abs() <= tol && (b.y() - want.y).abs() <= tol) {
+                    ok = false;
+                    detail = format!("segment {:?} ratio {r}: ratio form {a:?}, distance form {b:?}, want {want:?}", w);
+                }
+            }
+        }
+        if ok { cx.ok("point_between_two_points"); } else { cx.bad("C15", "point_between_two_points", case, json!({"detail": detail})); }
+    }
     for at in case["at"].as_array().unwrap() {
         let r = rat(&at["r"]);
         let (ws, we) = (rpt(&at["from_start"]), rpt(&at["from_end"]));
